@@ -86,7 +86,19 @@ let trace_case ws =
   | [] -> "-"
   | l -> String.concat " " (List.map show_obs l)
 
+let versions_case ws =
+  let ops = List.map (fun w -> match split ':' w with
+    | ["c"] -> VCommit
+    | ["a"; s] -> VAcquire (ni s)
+    | ["r"; s] -> VRelease (ni s)
+    | ["k"] -> VClean
+    | _ -> failwith "bad versions op") ws in
+  String.concat " | " (List.map (fun (all, res) ->
+    (match all with [] -> "." | l -> String.concat "," (List.map si l)) ^
+    (match res with None -> "" | Some r -> "=>" ^ opt si r)) (c09_versions ops))
+
 let handle = function
+  | "zv" :: ws -> versions_case ws
   | "cell" :: probes :: ops when String.length probes > 2 && String.sub probes 0 2 = "p:" ->
       cell_case (String.sub probes 2 (String.length probes - 2)) ops
   | "zt" :: ws -> trace_case ws
